@@ -91,6 +91,41 @@ def run(ctx):
                'lookup by seq %s' % ('compares the found frame\'s seq with the requested one before returning Some' if ok else
                                     'returns the position seq - base_seq WITHOUT comparing the frame found there: after a gap or a repeat in the stream it yields a different frame'), line=f.line)
     ctx.floor('C20.1', 'seq-keyed lookups', n, 1)
+    # ... and no accessor of the crate answers a seq lookup with the NEAREST frame: a search (find / position / rfind /
+    # find_map) in a function that hands out a frame, whose predicate orders Event.seq against the wanted seq (>=, <=, >, <)
+    # instead of testing equality, returns a different frame whenever the exact one is missing (a hole, an eviction)
+    nsearch = 0
+    for p, f in sorted(P.fns.items()):
+        if f.crate != 'rip_tui' or '{closure' in p:
+            continue
+        sig = P.sigs.get(p) or {}
+        if not re.search(r'^core::option::Option<(&)?(\'\w+ )?(rip_kernel::)?Event>$|^core::option::Option<&(\'\w+ )?rip_kernel::Event>$', sig.get('output', '')):
+            continue
+        for s_ in [x for g_ in P.family(p) for x in g_.sites()]:
+            if not re.search(r'Iterator::(find|position|rfind|rposition|find_map|skip_while|take_while)$|::(binary_search_by|binary_search_by_key|partition_point)$', s_.callee or ''):
+                continue
+            cl_ = None
+            for a_ in s_.args[1:]:
+                o_ = s_.fn.origin(a_)
+                if o_[0] == 'rv' and o_[1].get('ak') == 'closure' and o_[1].get('def') in P.fns:
+                    cl_ = P.fns[o_[1]['def']]
+            if cl_ is None:
+                continue
+            nsearch += 1
+            ordered = []
+            for b_ in cl_.blocks:
+                for st_ in b_['s']:
+                    rv_ = st_.get('rv') or {}
+                    if rv_.get('k') == 'bin' and rv_.get('op') in ('Ge', 'Le', 'Gt', 'Lt'):
+                        for o2 in rv_['a']:
+                            src_ = cl_.origin(o2)
+                            if src_[0] == 'local' and any(isinstance(pp, dict) and pp.get('n') == 'seq' and pp.get('o') == 'rip_kernel::Event' for pp in src_[2]):
+                                ordered.append(st_.get('ln'))
+            ctx.touch(f)
+            ctx.ob('C20.1', f, 'no-nearest-match:' + s_.name, not ordered,
+                   '%s in a frame accessor tests seq for equality (or not at all)' % s_.name if not ordered else
+                   '%s orders Event.seq against the wanted seq (line %s) and the accessor hands out what it finds: when the exact frame is missing, a DIFFERENT frame is returned for that seq' % (s_.name, ordered[0]), line=s_.line)
+    ctx.ob('C20.1', 'rip_tui', 'frame-accessors-scanned', True, '%d search(es) in functions of rip_tui that hand out a frame' % nsearch)
 
     # ---------------------------------------------------------------- C20.2 / C20.3
     roots = [TUI + '::update'] + [p for p in P.fns if p.startswith(FS) and '{closure' not in p] + \
